@@ -53,7 +53,18 @@ using PartIndex = long;
 using A4 = alpha<2, 3, DC, 0>;
 constexpr ll kMaxDyn = 4;
 
-std::uint64_t g_oob = 0; // out-of-range operator[] calls on checked_vec
+std::uint64_t g_oob    = 0; // out-of-range operator[] calls on checked_vec
+std::uint64_t g_absurd = 0; // checked_vec asked for more elements than any case of this harness needs
+
+/// a broken required_span_size() must not turn into a multi-gigabyte allocation
+inline std::size_t sane(std::size_t n)
+{
+    if (n > (std::size_t(1) << 16)) {
+        ++g_absurd;
+        return 0;
+    }
+    return n;
+}
 
 /// minimal contiguous container with exact-size heap storage; operator[] is range checked
 struct checked_vec {
@@ -64,8 +75,8 @@ struct checked_vec {
     using const_iterator  = int const*;
 
     checked_vec() = default;
-    explicit checked_vec(std::size_t n) : _p(n ? static_cast<int*>(std::malloc(n * sizeof(int))) : nullptr), _n(n) { std::fill(_p, _p + _n, 0); }
-    checked_vec(std::size_t n, int const& v) : _p(n ? static_cast<int*>(std::malloc(n * sizeof(int))) : nullptr), _n(n) { std::fill(_p, _p + _n, v); }
+    explicit checked_vec(std::size_t n) : _p(sane(n) ? static_cast<int*>(std::malloc(sane(n) * sizeof(int))) : nullptr), _n(_p ? n : 0) { std::fill(_p, _p + _n, 0); }
+    checked_vec(std::size_t n, int const& v) : _p(sane(n) ? static_cast<int*>(std::malloc(sane(n) * sizeof(int))) : nullptr), _n(_p ? n : 0) { std::fill(_p, _p + _n, v); }
     checked_vec(checked_vec const& o) : checked_vec(o._n) { std::copy(o._p, o._p + _n, _p); }
     checked_vec(checked_vec&& o) noexcept : _p(o._p), _n(o._n)
     {
@@ -492,6 +503,7 @@ void run_ma_case(Ctx& c, TypeInfo const& ti, MaFns const& f, std::size_t maxSpan
                 c.at(subj[k], cls, cat("mdarray<int,", en, ",", lname[side], ",", container_name, ">(", how[k], ") extents ", show(e)));
                 MaObs o;
                 g_oob        = 0;
+                g_absurd     = 0;
                 auto const t = mc::guarded([&] { f.f[side][k](dv.data(), e.data(), ix, prod, o); });
                 if (t == mc::Trap::none) {
                     verify_ma(c, o, ix, x, ti);
@@ -499,6 +511,7 @@ void run_ma_case(Ctx& c, TypeInfo const& ti, MaFns const& f, std::size_t maxSpan
                     c.trap_o(t, o.phase);
                 }
                 if (g_oob != 0) { c.c02(cat(g_oob, " out-of-range operator[] calls on the container")); }
+                if (g_absurd != 0) { c.fail("the container was constructed with more than 65536 elements (required_span_size() is wrong)"); }
                 c.san_check();
                 c.nontrivial += (ix.n > 1);
             }
